@@ -395,16 +395,29 @@ def h5_depth(timeout=100, **kw):
 
 
 # --------------------------------------------------------------------------------------------- H6
+def pdfdoc_table():
+    """ISO 32000-1 Annex D.2, PDFDocEncoding: the defined codes only (0x00-0x17 other than HT/LF/CR, 0x7F, 0x9F, 0xAD are undefined and not claimed)"""
+    t = {c: chr(c) for c in range(0x20, 0x7f)}
+    t.update({9: "\t", 10: "\n", 13: "\r"})
+    t.update(zip(range(0x18, 0x20), map(chr, [0x2D8, 0x2C7, 0x2C6, 0x2D9, 0x2DD, 0x2DB, 0x2DA, 0x2DC])))           # breve caron circumflex dotaccent hungarumlaut ogonek ring tilde
+    t.update(zip(range(0x80, 0x9f), map(chr, [0x2022, 0x2020, 0x2021, 0x2026, 0x2014, 0x2013, 0x192, 0x2044, 0x2039, 0x203A, 0x2212, 0x2030, 0x201E, 0x201C, 0x201D, 0x2018,
+                                              0x2019, 0x201A, 0x2122, 0xFB01, 0xFB02, 0x141, 0x152, 0x160, 0x178, 0x17D, 0x131, 0x142, 0x153, 0x161, 0x17E])))
+    t[0xa0] = chr(0x20AC)
+    t.update({c: chr(c) for c in range(0xa1, 0x100) if c != 0xad})
+    return t
+
+
 def h6_text(timeout=100, **kw):
     import pdfminer.utils as u
+    table = pdfdoc_table()
 
     def fn(ex):
         b = ex.int("b", 0, 255)
         c = b.__index__()                        # table lookup: the byte is concretised by forking (256 paths)
         one = u.decode_text(bytes([c]))
         ex.require(len(one) == 1, "decode_text of one byte gives %r" % one, c=c)
-        if 0x20 <= c <= 0x7e:
-            ex.require(one == chr(c), "ASCII byte %#x decodes to %r" % (c, one), c=c)
+        if c in table:
+            ex.require(one == table[c], "byte %#x decodes to %r, PDFDocEncoding (ISO 32000-1 Annex D.2) says %r" % (c, one, table[c]), c=c)
         two = u.decode_text(bytes([0x41, c, 0x42]))
         ex.require(two == "A" + one + "B", "decode_text is not byte-wise: %r" % two, c=c)
         # BOM: UTF-16BE
@@ -413,7 +426,7 @@ def h6_text(timeout=100, **kw):
 
     def conc(m, info):
         return {"c": info["c"]}
-    return core.run_symx("H6_text", fn, [u.decode_text], {"byte": "symbolic 0..255 (concretised: table lookup)", "checks": "one char per byte, ASCII identity, byte-wise, UTF-16BE after BOM"},
+    return core.run_symx("H6_text", fn, [u.decode_text], {"byte": "symbolic 0..255 (concretised: table lookup)", "checks": "one char per byte, the Annex D.2 character for every defined code, byte-wise, UTF-16BE after BOM"},
                          timeout, concretize=conc, int_lo=0, int_hi=255)
 
 
@@ -526,8 +539,9 @@ def replay(harness, inp):
     if harness == "H6_text":
         c = inp["c"]
         one = u.decode_text(bytes([c]))
-        if len(one) != 1 or (0x20 <= c <= 0x7e and one != chr(c)):
-            return "decode_text(%r) = %r" % (bytes([c]), one)
+        t = pdfdoc_table()
+        if len(one) != 1 or (c in t and one != t[c]):
+            return "decode_text(%r) = %r, PDFDocEncoding (ISO 32000-1 Annex D.2) has %r" % (bytes([c]), one, t.get(c))
         if u.decode_text(bytes([0x41, c, 0x42])) != "A" + one + "B":
             return "decode_text is not byte-wise for %#x" % c
         if u.decode_text(b"\xfe\xff\x00" + bytes([c])) != bytes([0, c]).decode("utf-16-be"):
